@@ -231,3 +231,43 @@ def _unary(name):
 
 for _n in ("sqrt", "sin", "cos", "tan", "arccos", "arcsin", "arctan", "log", "log10", "exp"):
     globals()["u_" + _n] = _unary(_n)
+
+
+def _fold(items, pick_left_if):
+    it = iter(items)
+    best = next(it)
+    for v in it:
+        if is_symbolic(best) or is_symbolic(v):
+            cond = pick_left_if(best, v)  # SBool, not forced
+            best = SReal(tm.ite(cond.t if isinstance(cond, SBool) else (tm.TRUE if cond else tm.FALSE), lift(best), lift(v)))
+        else:
+            if isinstance(best, SReal):
+                best = best.concrete()
+            if isinstance(v, SReal):
+                v = v.concrete()
+            best = best if pick_left_if(best, v) else v
+    return best
+
+
+def max_(*a, **kw):
+    CALLS[0] += 1
+    items = a[0] if len(a) == 1 else a
+    if kw or not _any_sym(items):
+        return builtins.max(*a, **kw)
+    return _fold(list(items), lambda x, y: x >= y)
+
+
+def min_(*a, **kw):
+    CALLS[0] += 1
+    items = a[0] if len(a) == 1 else a
+    if kw or not _any_sym(items):
+        return builtins.min(*a, **kw)
+    return _fold(list(items), lambda x, y: x <= y)
+
+
+def _any_sym(items):
+    try:
+        items = list(items)
+    except TypeError:
+        return False
+    return any(isinstance(x, SReal) and x.concrete() is None for x in items)
